@@ -39,7 +39,10 @@ func plans(tier string, lOverride int) []plan {
 		}
 		return false
 	})
-	lf, li, lia, ls := 4, 4, 3, 3
+	lf, li, lia, lir, ls := 4, 3, 3, 4, 3
+	if tier == "thorough" {
+		li, lir = 4, 5
+	}
 	if lOverride > 0 {
 		lf = lOverride
 		if li > lOverride {
@@ -57,10 +60,8 @@ func plans(tier string, lOverride int) []plan {
 		plan{Name: "full compile, create operation with files, small alphabet", Mode: "full", CreateFiles: true, Alphabet: small, L: ls},
 		plan{Name: "incremental (cache.BugCache, snapshot forced before the appends), API-expressible alphabet", Mode: "incremental", Alphabet: inc, L: li},
 		plan{Name: "incremental, snapshot forced after every position", Mode: "incremental", Alphabet: inc, L: lia, ForceAll: true},
+		plan{Name: "incremental, reduced API-expressible alphabet, deeper", Mode: "incremental", Alphabet: redInc, L: lir},
 	)
-	if tier == "thorough" {
-		ps = append(ps, plan{Name: "incremental, reduced API-expressible alphabet, deeper", Mode: "incremental", Alphabet: redInc, L: 5})
-	}
 	return ps
 }
 
@@ -350,9 +351,11 @@ func Main(args []string) {
 	tier := evidence.Tier()
 	rep := evidence.NewReporter("C10")
 	start := time.Now()
-	budget := 170 * time.Second
+	// safety net only: the bounds are chosen so that the quick tier takes about one minute and the
+	// thorough tier about ten on 16 otherwise idle cores
+	budget := 8 * time.Minute
 	if tier == "thorough" {
-		budget = 23 * time.Minute
+		budget = 24 * time.Minute
 	}
 	deadline := start.Add(budget)
 	st := newStats()
